@@ -28,13 +28,16 @@ pub struct Case {
   pub error_in: u8,
   /// separate elements by a single newline instead of a blank line (recorded, not judged)
   pub tight: bool,
+  /// trailing comment per emitted statement (index into TRAILING; 0 = none)
+  #[serde(default)]
+  pub trailing: Vec<u8>,
 }
 
 /// fence names: case variants on purpose (names are case-sensitive)
 pub const NAMES: [&str; 6] = ["left", "Left", "right", "aux", "LEFT", "Disabled"];
 
 /// prose candidates; each is pre-screened (must parse alone as prose only)
-pub const PROSE: [&str; 26] = [
+pub const PROSE: [&str; 32] = [
   "This is a paragraph about things.",
   "Another paragraph, with numbers 1 2 3 and some words.",
   "Note that y = x + 1 in what follows.",
@@ -61,7 +64,17 @@ pub const PROSE: [&str; 26] = [
   "2. Numbered section\n-------------------",
   "Section words\n-------------",
   "~~~\ntilde fenced\nv3 := 5\n~~~",
+  // comments whose text looks like code, contains statement separators, or uses inline markup
+  "-- set it later; v1 = 5",
+  "// a slash comment about v1 := 3; v2 := 4",
+  "-- note: v1 := 77",
+  "-- **bold**, `code` and [a link](http://x.y) in a comment",
+  "-- a_b *not closed [see below",
+  "-- first; second; third",
 ];
+
+/// comments appended to a statement on the same line (0 = none)
+pub const TRAILING: [&str; 6] = ["", " -- plain words", " -- reset; v1 = 9", " // slash; v2 := 8", " -- note: v3 := 7", " -- a_b *x"];
 
 impl Prop for C10 {
   type Case = Case;
@@ -69,17 +82,17 @@ impl Prop for C10 {
   fn budget(t: Tier) -> u32 { t.pick(3_000, 50_000) }
   fn strategy(_t: Tier, _k: &Known) -> BoxedStrategy<Case> {
     let choices = || proptest::collection::vec(0u32..100_000, 4..=40);
-    (proptest::collection::vec(choices(), 1..=3), proptest::collection::vec(0u8..6, 2), proptest::collection::vec((0u8..3, prop_oneof![Just(Place::Bare), Just(Place::Fence)]), 1..=14), proptest::collection::vec(prop_oneof![2 => Just(255u8), 5 => 0u8..26], 16), any::<bool>(), prop_oneof![4 => Just(0u8), 1 => 1u8..3], proptest::bool::weighted(0.1))
-      .prop_map(|(programs, names, order, prose, title, error_in, tight)| {
+    (proptest::collection::vec(choices(), 1..=3), proptest::collection::vec(0u8..6, 2), proptest::collection::vec((0u8..3, prop_oneof![Just(Place::Bare), Just(Place::Fence)]), 1..=14), proptest::collection::vec(prop_oneof![2 => Just(255u8), 5 => 0u8..26, 2 => 26u8..32], 16), any::<bool>(), prop_oneof![4 => Just(0u8), 1 => 1u8..3], proptest::bool::weighted(0.1), proptest::collection::vec(prop_oneof![3 => Just(0u8), 2 => 1u8..6], 14))
+      .prop_map(|(programs, names, order, prose, title, error_in, tight, trailing)| {
         let mut names = names; if names[0] == names[1] { names[1] = (names[1] + 1) % 6; }
-        Case { programs, names, order, prose, title, error_in, tight }
+        Case { programs, names, order, prose, title, error_in, tight, trailing }
       }).boxed()
   }
   fn rule() -> &'static str {
     "case = 1-3 independent programs over the SAME variable names (one for the unnamed program, the others for named fences whose names \
      include case variants left/Left/LEFT and `Disabled`), their statements interleaved in document order, each placed as bare code or in \
-     a fence, with prose elements from a 26-element pool in between (paragraphs incl. code-looking ones, lists, quotes, thematic break, \
-     markdown table, python / plain / tilde / disabled / capitalised-tag fences containing conflicting definitions, comments, section \
+     a fence, with prose elements from a 32-element pool in between (paragraphs incl. code-looking ones, lists, quotes, thematic break, \
+     markdown table, python / plain / tilde / disabled / capitalised-tag fences containing conflicting definitions, `--` and `//` comments (also with code-looking text, `;` separators and inline markup, stand-alone and trailing a statement), section \
      headers) and an optional title; optionally an erroneous last statement in one named fence. Prose candidates are pre-screened (must \
      parse alone as prose only). Oracle (metamorphic): main snapshot == interpreting the unnamed program's code alone; the set of \
      sub-interpreter snapshots == the set of per-name programs interpreted alone. Non-trivial = ≥2 prose elements next to code incl. a \
@@ -119,10 +132,13 @@ fn build_doc(c: &Case) -> (String, Vec<Vec<String>>, usize, bool, usize) {
     let pi = (*pi as usize) % progs.len();
     if next[pi] >= progs[pi].len() { continue; }
     let pr = c.prose[k % c.prose.len()];
-    if pr != 255 { let text = PROSE[pr as usize % PROSE.len()]; if prose_ok(text) { parts.push(text.to_string()); nprose += 1; if pr <= 5 || (14..=18).contains(&pr) || pr == 25 { codeish = true; } } else { rejected += 1; } }
+    if pr != 255 { let text = PROSE[pr as usize % PROSE.len()]; if prose_ok(text) { parts.push(text.to_string()); nprose += 1; if pr <= 5 || (14..=18).contains(&pr) || pr == 25 || pr >= 26 { codeish = true; } } else { rejected += 1; } }
     let stmt = progs[pi][next[pi]].clone();
     next[pi] += 1;
     per_ns[pi].push(stmt.clone());
+    // a trailing comment on the statement's (last) line; the code-only reference is the statement without it
+    let tr = c.trailing.get(k).copied().unwrap_or(0) as usize % TRAILING.len();
+    let stmt = if tr != 0 && !stmt.contains('\n') { format!("{}{}", stmt, TRAILING[tr]) } else { stmt };
     if pi == 0 { match place { Place::Bare => parts.push(stmt), Place::Fence => parts.push(format!("```mech\n{}\n```", stmt)) } }
     else { parts.push(format!("```mech:{}\n{}\n```", NAMES[c.names[pi - 1] as usize % NAMES.len()], stmt)); }
   }
